@@ -525,6 +525,9 @@ static void c_poly(const Args& a) {
     unsigned T = (unsigned)a.W(0);
     if (T == 0x5) { Givaro::Modular<int32_t> F((uint32_t)a.W(1)); poly_run(a, F); }
     else if (T == 0x20) { Givaro::GFqDom<int32_t> F((uint32_t)a.W(1), (uint32_t)a.W(2)); poly_run(a, F); }
+    else if (T == 0x11) { Givaro::Modular<double> F((double)a.W(1)); poly_run(a, F); }
+    else if (T == 0x12) { Givaro::ModularBalanced<int32_t> F((int32_t)a.W(1)); poly_run(a, F); }
+    else if (T == 0x16) { Givaro::Montgomery<int32_t> F((uint32_t)a.W(1)); poly_run(a, F); }
     else out(a, "BADTYPE");
 }
 
@@ -1029,6 +1032,12 @@ struct Gen {
             add("poly 5 " + H(p) + " 1 " + H(gseed()) + " 1 0");
             add("poly 5 " + H(p) + " 1 " + H(gseed()) + " 3 0");
             add("poly 20 " + H(p) + " 1 " + H(gseed()) + " 3 0");
+        }
+        // other coefficient domains (the generic polynomial model over the RingDraw classes): Modular<double>, ModularBalanced<int32_t>, Montgomery<int32_t>
+        for (unsigned T : {0x11u, 0x12u, 0x16u}) for (uint64_t p : {(uint64_t)3, (uint64_t)5, (uint64_t)101, (uint64_t)32749, (uint64_t)40503}) for (long d : {0L, 1L, 2L, 7L, 33L}) for (int kind : {0, 1, 3, 4, 5, 7}) {
+            long arg = (kind % 4 == 0) ? d : d + 1;
+            add("poly " + H(T) + " " + H(p) + " 1 " + H(gseed(false)) + " " + H(kind) + " " + H(arg));
+            if (d == 0) add("poly " + H(T) + " " + H(p) + " 1 " + H(gseed()) + " " + H(kind) + " " + vp::hex_ll(kind % 4 == 0 ? -1 : 0));
         }
         std::vector<std::pair<uint64_t, uint64_t>> pk = {{2, 1}, {2, 4}, {3, 3}, {5, 2}, {101, 1}};
         for (auto& e : pk) for (long d : {0L, 1L, 2L, 9L, 40L}) for (int kind : {0, 1, 3, 4, 5, 7}) {
